@@ -534,17 +534,8 @@ func runPristine(tc *tcase, raw []byte, env *rt.Env) rt.Result {
 	}
 	mn, mx := r.TimeRange()
 	if mn != c.t(tc.TRange[0]) || mx != c.t(tc.TRange[1]) {
-		var pats []string
-		if mn == c.t(tc.TRange[0]) && mx == 0 && c.t(tc.TRange[1]) < 0 {
-			pats = append(pats, "time_range_max_is_zero_when_all_times_negative")
-		}
-		res := rt.Fail(0, "TimeRange", []int64{mn, mx}, []int64{c.t(tc.TRange[0]), c.t(tc.TRange[1])}, pats...)
-		if len(pats) == 0 {
-			return res
-		}
-		if ck.pending == nil {
-			ck.pending = &res
-		}
+		// exact for every file, including files whose times are all negative (F21, repaired in reader.go)
+		return rt.Fail(0, "TimeRange", []int64{mn, mx}, []int64{c.t(tc.TRange[0]), c.t(tc.TRange[1])})
 	}
 	k0, k1 := r.KeyRange()
 	if !bytes.Equal(k0, c.keys[tc.KRange[0]]) || !bytes.Equal(k1, c.keys[tc.KRange[1]]) {
